@@ -20,6 +20,7 @@ REG.opaque_classes = {}
 REG.used_opaque = set()
 REG.dict_universes = {}
 REG.raise_requires = {}
+REG.opaque_call_hooks = {}
 
 
 class PreFail(Exception):
@@ -108,6 +109,10 @@ def is_fresh(x):
     return True
 
 
+def apply_forall(lem, f, trigger=None):
+    pass
+
+
 def existing_unchanged(name):
     return True
 
@@ -122,6 +127,10 @@ def lo_row(m, level):
 
 def lo_get(m, level, orient):
     return m[level][orient]
+
+
+def gval(a, y, x):
+    return a[y][x]
 
 
 def gheight(a):
@@ -313,6 +322,7 @@ class Contract(object):
         self.str_domains = dict(g("str_domains", {}))
         self.split_on = list(g("split_on", []))
         self.split_loops = list(g("split_loops", []))
+        self.split_body = bool(g("split_body", False))
         self.properties = g("properties", [])
 
     def resolve_classes(self):
